@@ -75,8 +75,31 @@ impl Gen {
         let len = present.len();
         // large containers: fill them up first (mostly fresh keys), then stay near the top
         if cap > 16 && len < cap - 4 && self.rng.gen_bool(0.85) {
-            let c = self.rng.gen_range(0..self.classes);
+            let mut c = self.rng.gen_range(0..self.classes);
+            for _ in 0..8 {
+                if !present.contains(&c) {
+                    break;
+                }
+                c = self.rng.gen_range(0..self.classes);
+            }
             return json!({"name": "insert", "k": {"kt": ARG + 1, "c": c, "r": 0}, "v": self.v(1)});
+        }
+        if cap > 16 && len > 8 && self.rng.gen_bool(0.3) {
+            // large containers: requests that reach the highest slots (indices beyond one byte),
+            // mixed with low slots and absent keys
+            let j = self.rng.gen_range(2..=4usize);
+            let mut ks: Vec<Cls> = vec![];
+            for a in 0..j {
+                let c = match (a + self.rng.gen_range(0..3usize)) % 3 {
+                    0 => present[len - 1 - self.rng.gen_range(0..len.min(48))],
+                    1 => present[self.rng.gen_range(0..len)],
+                    _ => self.rng.gen_range(0..self.classes),
+                };
+                ks.push(c);
+            }
+            let distinct = (0..ks.len()).all(|a| (a + 1..ks.len()).all(|b| ks[a] != ks[b]));
+            let unchecked = distinct && self.rng.gen_bool(0.4);
+            return json!({"name": "disjoint", "ks": ks, "w": self.w(), "unchecked": unchecked});
         }
         let mut x = self.rng.gen_range(0..100);
         if cap > 16 && (x == 62 || x == 63 || (64..=79).contains(&x)) && self.rng.gen_bool(0.9) {
